@@ -404,14 +404,9 @@ def atom_named(s, name, resname=None):
     raise KeyError(name)
 
 
-def dock(sa, a_atom, sb, b_atom, d, spin=0.0):
-    """Rigidly move structure sb so that b_atom sits at distance d from a_atom, outward from sa's
-    centroid, with sb pointing away; `spin` degrees about the contact axis give other orientations."""
-    pa = list(a_atom.xyz)
-    u = _sub(pa, centroid(sa.atoms))
-    if _norm(u) < 1e-6:
-        u = [1.0, 0.0, 0.0]
-    u = _mul(u, 1 / _norm(u))
+def dock_at(sb, b_atom, point, direction, spin=0.0):
+    """Rigidly move sb so that b_atom sits at `point` (A) and the body of sb points along `direction`."""
+    u = _mul(direction, 1 / _norm(direction))
     pb = list(b_atom.xyz)
     w = _sub(centroid(sb.atoms), pb)
     if _norm(w) < 1e-6:
@@ -420,14 +415,27 @@ def dock(sa, a_atom, sb, b_atom, d, spin=0.0):
     if spin:
         R2 = axis_rot(u, spin)
         R = [[sum(R2[i][m] * R[m][j] for m in range(3)) for j in range(3)] for i in range(3)]
-    target = _add(pa, _mul(u, d))
     out = sb.copy()
     for a in out.atoms:
         q = _sub(list(a.xyz), pb)
         q = [sum(R[i][j] * q[j] for j in range(3)) for i in range(3)]
-        p = _add(target, q)
+        p = _add(point, q)
         a.x, a.y, a.z = (int(round(v * 1000)) for v in p)
     return out
+
+
+def outward(sa, a_atom):
+    u = _sub(list(a_atom.xyz), centroid(sa.atoms))
+    if _norm(u) < 1e-6:
+        u = [1.0, 0.0, 0.0]
+    return _mul(u, 1 / _norm(u))
+
+
+def dock(sa, a_atom, sb, b_atom, d, spin=0.0):
+    """Rigidly move structure sb so that b_atom sits at distance d from a_atom, outward from sa's
+    centroid, with sb pointing away; `spin` degrees about the contact axis give other orientations."""
+    u = outward(sa, a_atom)
+    return dock_at(sb, b_atom, _add(list(a_atom.xyz), _mul(u, d)), u, spin)
 
 
 def min_interdist(sa, sb, skip=()):
@@ -572,31 +580,32 @@ def pair(kind_a, kind_b, d, spin=0.0, level='exposed', offset=(0, 0, 0)):
 
 
 def cluster(kinds, layout='line', d=3.0, level='exposed', offset=(0, 0, 0)):
-    """S3 cluster: kinds[1:] docked successively (line), or all onto kinds[0] from different sides (star)."""
+    """S3 cluster.  'star': kinds[1:] all docked onto kinds[0]'s interaction atom from directions 75 degrees apart.
+    'line': part k+1 docked onto part k's interaction atom, approaching at 95 degrees from the previous contact."""
     parts = [kind_struct(kinds[0], 'A', 1)]
     chains = 'BCDEFGH'
+    anchor = parts[0]
+    a_at = kind_atom(kinds[0], anchor)
+    u = outward(anchor, a_at)
+    n = _cross(u, [0.3, 0.5, 0.8])
+    prev_at, prev_u = a_at, u
     for i, k in enumerate(kinds[1:]):
         sb = kind_struct(k, chains[i], 11 + 10 * i)
-        if layout == 'line':
-            anchor = parts[-1]
-            ak = kinds[i]
-            sb = dock(anchor, kind_atom(ak, anchor), sb, kind_atom(k, sb), d, spin=40.0 * i)
-        else:   # star: rotate the anchor's outward direction by placing around its interaction atom
-            anchor = parts[0]
-            a_at = kind_atom(kinds[0], anchor)
-            sb = dock(anchor, a_at, sb, kind_atom(k, sb), d)
-            # swing the docked part about an axis through the anchor atom
-            ang = 75.0 * (i) * (1 if i % 2 == 0 else -1)
-            if ang:
-                u = _sub(list(a_at.xyz), centroid(anchor.atoms))
-                ax = _cross(u, [0.3, 0.5, 0.8])
-                R = axis_rot(ax, ang)
-                pa = list(a_at.xyz)
-                for a in sb.atoms:
-                    q = _sub(list(a.xyz), pa)
-                    q = [sum(R[r][c] * q[c] for c in range(3)) for r in range(3)]
-                    p = _add(pa, q)
-                    a.x, a.y, a.z = (int(round(v * 1000)) for v in p)
+        b_at = kind_atom(k, sb)
+        if layout == 'star':
+            ang = 75.0 * ((i + 1) // 2) * (1 if i % 2 else -1)
+            R = axis_rot(n, ang)
+            w = [sum(R[r][c] * u[c] for c in range(3)) for r in range(3)]
+            sb = dock_at(sb, b_at, _add(list(a_at.xyz), _mul(w, d)), w, spin=30.0 * i)
+        else:
+            if i == 0:
+                w = prev_u
+            else:
+                back = _mul(prev_u, -1.0)
+                R = axis_rot(n, 95.0 if i % 2 else -95.0)
+                w = [sum(R[r][c] * back[c] for c in range(3)) for r in range(3)]
+            sb = dock_at(sb, b_at, _add(list(prev_at.xyz), _mul(w, d)), w, spin=40.0 * i)
+            prev_at, prev_u = kind_atom(k, sb), w
         parts.append(sb)
     s = with_burial(parts, level)
     s.translate(offset)
